@@ -610,6 +610,17 @@ def exprFsCond : Node :=
   .func {} "Fs" [.cond {} (.binary {} ">" (.index {} (.slice {} (ident "Ints") (some (.int {} 1)) (some (.int {} 2))) (.int {} 0))
     (ident "I")) (.str {} "a") (.str {} "b")] false
 
+/-- `I in [1, 2, I + 1] and len((I > 1 ? Ints : 1..3)[0:1]) == 1` -/
+def exprArr : Node :=
+  .binary {} "and"
+    (.binary {} "in" (ident "I") (.array {} [.int {} 1, .int {} 2, .binary {} "+" (ident "I") (.int {} 1)]))
+    (.binary {} "==" (.builtin {} "len" [.slice {} (.cond {} (.binary {} ">" (ident "I") (.int {} 1)) (ident "Ints")
+      (.binary {} ".." (.int {} 1) (.int {} 3))) (some (.int {} 0)) (some (.int {} 1))]) (.int {} 1))
+
+example : inFrag2 false exprArr = true ∧ typed2 (cfgWith .asIs) [] exprArr = true ∧
+    (check (cfgWith .asIs) exprArr).okType = some boolTy := by
+  decide +kernel
+
 example : inFrag2 false exprColl = true ∧ typed2 (cfgWith .asIs) [] exprColl = true ∧
     (check (cfgWith .asIs) exprColl).okType = some boolTy ∧
     inFrag2 true exprFfLit = true ∧ typed2 (cfgWith2 .asIs) [] exprFfLit = true ∧
